@@ -2,6 +2,7 @@ package rules
 
 import (
 	"fmt"
+	"go/token"
 	"go/types"
 
 	"gmcheck/core"
@@ -124,6 +125,11 @@ func (c *Ctx) RawRead() []core.Ob {
 				case oneByteBuf(buf) && tupleResultUsed(call, 0):
 					ob.Status = core.OK
 					ob.Got = "one-byte read, count result is used"
+					// ... and used to decide: an exit that reports success lies behind the edge on which
+					// the count was found to be 1 (not merely next to a test of it)
+					if why := successWithoutCount(call); why != "" {
+						ob.Status, ob.Got = core.Violated, why
+					}
 				default:
 					ob.Status = core.Violated
 					ob.Got = "multi-byte (or count-discarding) direct Read: a short read is taken for a full one"
@@ -189,4 +195,136 @@ func (c *Ctx) Discard() []core.Ob {
 		}
 	}
 	return obs
+}
+
+// successWithoutCount: a return with a nil error is reachable from the one-byte Read without passing
+// the edge of a comparison that establishes count >= 1 ("" if none).
+func successWithoutCount(call *ssa.Call) string {
+	fn := call.Parent()
+	if !hasErrorResult(fn) {
+		return ""
+	}
+	var n ssa.Value
+	if refs := call.Referrers(); refs != nil {
+		for _, r := range *refs {
+			if ex, ok := r.(*ssa.Extract); ok && ex.Index == 0 {
+				n = ex
+			}
+		}
+	}
+	if n == nil || n.Referrers() == nil {
+		return ""
+	}
+	// edges on which n >= 1 holds (n itself, or the loop variable it flows into)
+	var good []*ssa.BasicBlock
+	var cmps []*ssa.BinOp
+	nvals := map[ssa.Value]bool{n: true}
+	for _, r := range *n.Referrers() {
+		if phi, ok := r.(*ssa.Phi); ok {
+			nvals[phi] = true
+		}
+	}
+	for nv := range nvals {
+		if nv.Referrers() == nil {
+			continue
+		}
+		for _, r := range *nv.Referrers() {
+			if cmp, ok := r.(*ssa.BinOp); ok && nvals[cmp.X] {
+				cmps = append(cmps, cmp)
+			}
+		}
+	}
+	for _, cmp := range cmps {
+		if cmp.Referrers() == nil {
+			continue
+		}
+		k, isK := constIntVal(cmp.Y)
+		if !isK {
+			continue
+		}
+		for _, u := range *cmp.Referrers() {
+			iff, ok := u.(*ssa.If)
+			if !ok {
+				continue
+			}
+			t, f := iff.Block().Succs[0], iff.Block().Succs[1]
+			switch {
+			case cmp.Op == token.EQL && k == 1, cmp.Op == token.GTR && k == 0, cmp.Op == token.GEQ && k == 1, cmp.Op == token.NEQ && k == 0:
+				good = append(good, t)
+			case cmp.Op == token.EQL && k == 0, cmp.Op == token.LSS && k == 1, cmp.Op == token.LEQ && k == 0, cmp.Op == token.NEQ && k == 1:
+				good = append(good, f)
+			}
+		}
+	}
+	if len(good) == 0 {
+		return "" // the count is used in some other way (returned, added up): not this pattern
+	}
+	// behind an edge on which a byte is known to have been read, the byte is delivered: the error handed
+	// back there is nil (a Reader may return the last byte together with io.EOF)
+	for _, g := range good {
+		seenG := map[*ssa.BasicBlock]bool{g: true}
+		workG := []*ssa.BasicBlock{g}
+		for len(workG) > 0 {
+			b := workG[len(workG)-1]
+			workG = workG[:len(workG)-1]
+			if ret, ok := b.Instrs[len(b.Instrs)-1].(*ssa.Return); ok && len(ret.Results) > 0 {
+				last := ret.Results[len(ret.Results)-1]
+				if kc, ok := last.(*ssa.Const); !(ok && kc.IsNil()) && derivesFromCallErr(last, call, 0) {
+					return "where the one-byte Read is known to have delivered its byte, the function still returns the Read's error: a final byte that arrives together with io.EOF is lost"
+				}
+			}
+			for _, sx := range b.Succs {
+				if !seenG[sx] && sx != call.Block() {
+					seenG[sx] = true
+					workG = append(workG, sx)
+				}
+			}
+		}
+	}
+	// search from the call for a success return avoiding entry through the good edges
+	isGood := map[*ssa.BasicBlock]bool{}
+	for _, g := range good {
+		if len(g.Preds) == 1 {
+			isGood[g] = true
+		}
+	}
+	seen := map[*ssa.BasicBlock]bool{call.Block(): true}
+	work := []*ssa.BasicBlock{call.Block()}
+	for len(work) > 0 {
+		b := work[len(work)-1]
+		work = work[:len(work)-1]
+		if ret, ok := b.Instrs[len(b.Instrs)-1].(*ssa.Return); ok && len(ret.Results) > 0 {
+			if kc, ok := ret.Results[len(ret.Results)-1].(*ssa.Const); ok && kc.IsNil() {
+				return "a success exit is reachable from the one-byte Read without the count having been found to be 1: at end of input a byte that was never read is handed on"
+			}
+		}
+		for _, s := range b.Succs {
+			if !seen[s] && !isGood[s] {
+				seen[s] = true
+				work = append(work, s)
+			}
+		}
+	}
+	return ""
+}
+
+// derivesFromCallErr: v is the error result of call, or a phi one of whose inputs is.
+func derivesFromCallErr(v ssa.Value, call *ssa.Call, d int) bool {
+	if d > 3 {
+		return false
+	}
+	switch x := v.(type) {
+	case *ssa.Extract:
+		if c2, ok := x.Tuple.(*ssa.Call); ok {
+			// the error of this Read, or of a repetition of it on the same receiver
+			return c2 == call || (c2.Common().IsInvoke() && call.Common().IsInvoke() && c2.Common().Method == call.Common().Method)
+		}
+	case *ssa.Phi:
+		for _, e := range x.Edges {
+			if e != v && derivesFromCallErr(e, call, d+1) {
+				return true
+			}
+		}
+	}
+	return false
 }
